@@ -55,21 +55,24 @@ def step (_ : Unit) (j : Json) : R (Unit × Json) := do
     let tris := triRefine nodes.length fn cf
     pure ((), obj [("nodes", ofList ofP2 (triNewNodes nodes fn)),
                    ("tri", ofList (fun (t : Tri) => ofNats [t.1, t.2.1, t.2.2]) tris),
-                   ("parent", ofNats (triParents cf.length))])
+                   ("parent", ofNats (triParents cf.length)),
+                   ("input_ok", Json.bool (cf.all (triCellOk nodes.length fn)))])
   | "sref1d" =>
     let cells ← (← fRatss j "cells").mapM (fun l => match l with
       | [a, b] => pure (a, b)
       | _ => throw "interval expected")
     let pts ← fRats j "pts"
     let cols := assign inside1d cells (enum pts)
-    pure ((), obj [("cols", ofList ofNats cols), ("count", ofNat (assignedCount cols))])
+    pure ((), obj [("cols", ofList ofNats cols), ("count", ofNat (assignedCount cols)),
+                   ("input_ok", Json.bool (uniqueB inside1d cells pts))])
   | "sref2d" =>
     let cells ← (← fRatss j "cells").mapM (fun l => match l with
       | [ax, ay, bx, by', cx, cy] => pure ((⟨ax, ay⟩ : P2), (⟨bx, by'⟩ : P2), (⟨cx, cy⟩ : P2))
       | _ => throw "triangle expected")
     let pts ← (← fRatss j "pts").mapM toP2
     let cols := assign inside2d cells (enum pts)
-    pure ((), obj [("cols", ofList ofNats cols), ("count", ofNat (assignedCount cols))])
+    pure ((), obj [("cols", ofList ofNats cols), ("count", ofNat (assignedCount cols)),
+                   ("input_ok", Json.bool (uniqueB inside2d cells pts))])
   | "extrude" =>
     let dim ← fNat j "dim"
     let nodes ← (← fRatss j "nodes").mapM toV3
@@ -86,7 +89,8 @@ def step (_ : Unit) (j : Json) : R (Unit × Json) := do
     pure ((), obj [("nodes", ofList ofV3 e.nodes), ("fn", ofList ofNats e.fn),
                    ("cf", ofList (ofList ofFaceSign) e.cf),
                    ("cell_map", ofList ofNats e.cellMap), ("face_map", ofList ofNats e.faceMap),
-                   ("fn_ord", if dim == 2 then ofList ofNats (facesOrdered b z) else Json.null)])
+                   ("fn_ord", if dim == 2 then ofList ofNats (facesOrdered b z) else Json.null),
+                   ("input_ok", Json.bool (zOk z && (dim == 0 || cn.length == cff.length)))])
   | "mdg_interface" =>
     let cells ← fNats j "cells"
     let faces ← fNats j "faces"
@@ -109,6 +113,23 @@ def step (_ : Unit) (j : Json) : R (Unit × Json) := do
     let r ← toTriple (← fNats j "r")
     let cols := cartSweep o h n r
     pure ((), obj [("cols", ofList ofNats cols), ("count", ofNat (assignedCount cols))])
+  | "sref_entry" =>
+    let e := srefEntry (← fNat j "dim_c") (← fNat j "dim_f") (← fNat j "nc_c") (← fNat j "nc_f")
+    match e with
+    | .point => pure ((), obj [("entry", Json.str "point")])
+    | .assertion => pure ((), err "AssertionError")
+    | .sweep => pure ((), obj [("entry", Json.str "sweep")])
+  | "refine1d_twice" =>
+    let nodes ← (← fRatss j "nodes").mapM toV3
+    let cells ← (← fNatss j "cells").mapM toPair
+    let r1 ← fNat j "r1"
+    let r2 ← fNat j "r2"
+    if r1 == 0 || r2 == 0 then throw "ratio 0" else
+    let out := refine1dTwice nodes cells r1 r2
+    let fine := fineCells out.2
+    pure ((), obj [("nodes", ofList ofV3 out.1), ("cells", ofList ofPair fine),
+                   ("signs", ofInts (refineSigns fine)),
+                   ("parent", ofNats ((List.range fine.length).map (fun i => parent1d r1 (parent1d r2 i))))])
   | "echo" => pure ((), Json.str "ok")
   | _ => throw s!"unknown op {op}"
 
